@@ -144,6 +144,10 @@ func c10Free(c *work.Ctx, pathOnly bool) {
 				json.VerifResetCaches()
 				runtime.GC() // empties the sync.Pools
 			}
+			// every third round starts from what failed calls leave behind
+			if r%3 == 2 {
+				c10Prologue()
+			}
 			sh := c10Fresh()
 			got := make([]string, len(sc.idx))
 			start := make(chan struct{})
